@@ -169,6 +169,9 @@ example : recognise G_pairs 200 [2, 2, 3] = some false := by decide +kernel
 example : tableSafe G_pairs ⟨T_pairs.action, [(0, 5, 1), (0, 6, 3), (1, 6, 4), (2, 6, 4), (5, 6, 9)]⟩ = false := by
   decide +kernel
 
+-- a table with a look-ahead symbol that is not a symbol of the grammar is rejected as well
+example : tableSafe G_pairs ⟨(3, 9, .reduce 2) :: T_pairs.action, T_pairs.goto⟩ = false := by decide +kernel
+
 /-- dangling else `S → i t S | i t S e S | e`: the builder resolves one shift/reduce conflict
 automatically; the resulting table still passes the validator. -/
 def G_else : Grammar := ⟨[2, 3, 4], [⟨5, [2, 3, 5]⟩, ⟨5, [2, 3, 5, 4, 5]⟩, ⟨5, [4]⟩], 5⟩
